@@ -255,7 +255,7 @@ where F: Frame + 'static, F::Sample: Flt, <F::Signed as Frame>::Sample: Flt, <F:
         (Det::Fw, None) => drive(Detector::<F, _>::peak(a, r), ops),
         (Det::Ph, None) => drive(Detector::<F, _>::peak_positive_half_wave(a, r), ops),
         (Det::Nh, None) => drive(Detector::<F, _>::peak_negative_half_wave(a, r), ops),
-        (Det::Rms(n), None) => drive(Detector::<F, Rms<F, Vec<F::Float>>>::rms(Fixed::from(vec![F::Float::EQUILIBRIUM; n]), a, r), ops),
+        (Det::Rms(n), None) => drive(Detector::<F, Rms<F, Vec<F::Float>>>::rms(Fixed::from_raw_parts(ops.len() % n.max(1), vec![F::Float::EQUILIBRIUM; n]), a, r), ops),
         (Det::Fw, Some(x)) => drive_sig(Detector::<F, _>::peak(a, r), ops, x),
         (Det::Ph, Some(x)) => drive_sig(Detector::<F, _>::peak_positive_half_wave(a, r), ops, x),
         (Det::Nh, Some(x)) => drive_sig(Detector::<F, _>::peak_negative_half_wave(a, r), ops, x),
